@@ -51,6 +51,27 @@ class SymInt:
     def __bool__(self):
         return forkexec.decide(self.term != 0)
 
+    def __index__(self):
+        v = 0
+        for i in range(W):
+            if forkexec.decide(z3.Extract(i, i, self.term) == 1):
+                v |= 1 << i
+        return v
+
+    __int__ = __index__
+
+    def to_bytes(self, *a, **k):
+        return int(self).to_bytes(*a, **k)
+
+    def bit_length(self):
+        return int(self).bit_length()
+
+    def __lt__(self, k):
+        return SymCond(z3.ULT(self.term, int(k)))
+
+    def __ge__(self, k):
+        return SymCond(z3.UGE(self.term, int(k)))
+
     __hash__ = None
 
 
@@ -64,9 +85,16 @@ class SymCond:
 
 # --------------------------------------------------------------------- (a)
 def bitio_unit(p, item, tier, seed):
-    lengths, offset = item
+    lengths, offset = item[0], item[1]
+    pins = item[2] if len(item) > 2 else None
     vs = [z3.BitVec(f"v{i}", W) for i in range(len(lengths))]
-    base = [z3.ULT(v, 1 << min(L + 1, W - 1)) for v, L in zip(vs, lengths)]  # allows one oversize bit
+    if pins is None:
+        base = [z3.ULT(v, 1 << min(L + 1, W - 1)) for v, L in zip(vs, lengths)]  # allows one oversize bit
+    else:
+        # wide numbers: only `free` low bits are symbolic, the rest is pinned to a non-palindromic pattern
+        base = []
+        for v, L, (free, pattern) in zip(vs, lengths, pins):
+            base.append(z3.Extract(W - 1, free, v) == ((pattern & ((1 << L) - 1)) >> free))
 
     def body():
         w = bit_io.BitWriter()
@@ -98,6 +126,7 @@ def bitio_unit(p, item, tier, seed):
         fits = z3.And(*[z3.ULT(v, 1 << L) if L < W else z3.BoolVal(True) for v, L in zip(vs, lengths)])
         pc = z3.And(*base, path.cond())
         bad = None
+        m = None
         if path.exc is not None:
             if not isinstance(path.exc, BitIOError):
                 bad = f"raised {type(path.exc).__name__}: {path.exc}"
@@ -115,6 +144,8 @@ def bitio_unit(p, item, tier, seed):
                 r, m = p.check([pc], label="bitio-padding")
                 bad = f"padding/length wrong: {len(data)} bytes, trailing bits {rest}"
         if bad:
+            if m is None:
+                r, m = p.check([pc], label="bitio-witness")
             vals = [m.eval(v, model_completion=True).as_long() for v in vs]
             p.violation(f"bitio:{bad.split(' ')[0]}", f"write_number values {vals} lengths {lengths} offset {offset}: {bad}",
                         REPLAY_PRELUDE + "from cirbo.circuits_db import bit_io\nfrom cirbo.circuits_db.exceptions import BitIOError\n"
@@ -307,6 +338,35 @@ def dict_concrete_unit(p, item, tier, seed):
     from cirbo.circuits_db.binary_dict_io import read_binary_dict, write_binary_dict
     from cirbo.circuits_db.exceptions import BinaryDictIOError
 
+    # the empty dictionary: exact round trip, every strict prefix and any trailing byte rejected
+    p.case(("dict-empty",))
+    buf = io.BytesIO()
+    write_binary_dict({}, buf)
+    data = buf.getvalue()
+    bad = None
+    try:
+        if read_binary_dict(io.BytesIO(data)) != {}:
+            bad = "empty dictionary does not round trip"
+        for cut in range(len(data)):
+            try:
+                read_binary_dict(io.BytesIO(data[:cut]))
+                bad = f"truncated empty dictionary ({cut} bytes) accepted"
+            except BinaryDictIOError:
+                pass
+        for extra in (b"\x00", b"\x01", b"abc"):
+            try:
+                read_binary_dict(io.BytesIO(data + extra))
+                bad = "trailing data after an empty dictionary accepted"
+            except BinaryDictIOError:
+                pass
+    except Exception as e:  # noqa: BLE001
+        bad = f"{type(e).__name__}: {e}"
+    if bad:
+        p.violation("dictio:concrete:empty-dictionary", bad,
+                    "import io\nfrom cirbo.circuits_db.binary_dict_io import read_binary_dict, write_binary_dict\nfrom cirbo.circuits_db.exceptions import BinaryDictIOError\n"
+                    "b=io.BytesIO(); write_binary_dict({}, b); d=b.getvalue(); bad=False\n"
+                    "for x in (d+b'\\x00', d+b'abc', d[:-1], d[:3], b''):\n    try:\n        read_binary_dict(io.BytesIO(x)); bad=True\n    except BinaryDictIOError:\n        pass\n"
+                    "sys.exit(1 if bad or read_binary_dict(io.BytesIO(d))!={} else 0)\n")
     alphabet = ["a", "\x00", "é", "€", "\U0001F600"]
     keys = [""] + ["".join(t) for n in (1, 2) for t in itertools.product(alphabet, repeat=n)]
     vals = [b"", b"\x00", b"ab\xff"]
@@ -370,7 +430,14 @@ def run(rep, tier, seed, only=None):
                             items.append((list(lens), off))
         rnd = random.Random(seed)
         rnd.shuffle(items)
-        rep.pmap(bitio_unit, items[: (400 if thorough else 90)])
+        items = items[: (400 if thorough else 60)]
+        # byte-aligned wide numbers (16, 24, 32 bits at offsets 0 and 8): high bits pinned, low bits symbolic
+        wide = (([16], 0), ([16], 8), ([24], 0), ([8, 16], 0))
+        if thorough:
+            wide += (([16, 16], 0), ([3, 16], 5), ([20], 4), ([W - 1], 0), ([16], 16))
+        for lens, off in wide:
+            items.append((lens, off, [(6 if thorough else 4, 0x5A3C9 >> (0 if L >= 20 else 4)) for L in lens]))
+        rep.pmap(bitio_unit, items)
     if sub("codec"):
         rep.pmap(codec_unit, [seed * 17 + s for s in range(16 if thorough else 8)])
     if sub("dict"):
